@@ -43,6 +43,32 @@ func (fr *frame) invoke(st *PState, c *ssa.CallCommon, recv Val, args []Val, k f
 			return
 		}
 	}
+	// sdk.Address: String / Bytes of an address whose dynamic type is not statically known
+	if iname == "Address" && strings.HasSuffix(ipkg, "cosmos-sdk/types") {
+		if _, known := recv.(*IfaceVal); !known {
+			r := ex.reify(st, recv, c.Value.Type())
+			switch m {
+			case "String":
+				res := WithGo(st.Name("addrstr", App(SBytes, "addr_string", App(SInt, "ityp", r), App(SBytes, "unbox_bytes", App(SInt, "ipay", r)))), types.Typ[types.String])
+				st.Assume(Not(Eq(res, bnilT)))
+				k(st, res)
+				return
+			case "Bytes":
+				k(st, WithGo(App(SBytes, "unbox_bytes", App(SInt, "ipay", r)), sig.Results().At(0).Type()))
+				return
+			}
+		}
+	}
+	// known dynamic type
+	if iv, ok := recv.(*IfaceVal); ok {
+		ms := ex.W.Prog.MethodSets.MethodSet(iv.Dyn)
+		if sel := ms.Lookup(c.Method.Pkg(), m); sel != nil {
+			if f := ex.W.Prog.MethodValue(sel); f != nil {
+				fr.callFunction(st, f.String(), f, f.Signature, append([]Val{iv.Payload}, args...), k)
+				return
+			}
+		}
+	}
 	// error.Error(), fmt.Stringer etc.
 	if m == "Error" || m == "String" {
 		k(st, fr.freshResults(st, sig, m))
@@ -193,12 +219,73 @@ func (ex *Exec) Unm(gt types.Type, b T) T {
 	es := ex.Sorts.SortOf(gt)
 	name := "unm_" + sanitize(shortTypeName(gt))
 	ex.declFun(name, []string{SBytes}, es)
-	return WithGo(App(es, name, b), gt)
+	// decoded values have non-nil math.Int / LegacyDec fields (gogoproto customtype Unmarshal allocates; the
+	// encoder always writes these fields): instantiated per use, no quantifier
+	x := WithGo(App(es, name, b), gt)
+	var facts []T
+	ex.nonNilFacts(x, gt, 0, &facts)
+	if len(facts) > 0 {
+		ex.side = append(ex.side, And(facts...))
+		ex.Assumed["codec: decoded "+shortTypeName(gt)+" has non-nil Int/Dec fields"] = true
+	}
+	return x
+}
+
+func (ex *Exec) nonNilFacts(x T, t types.Type, depth int, out *[]T) {
+	switch x.Sort {
+	case SIntV:
+		*out = append(*out, Not(App(SBool, "isnil", x)))
+		return
+	case SDecV:
+		*out = append(*out, Not(App(SBool, "disnil", x)))
+		return
+	}
+	if depth > 2 {
+		return
+	}
+	if si := ex.Sorts.StructInfoOf(t); si != nil {
+		for i, f := range si.Fields {
+			ex.nonNilFacts(ex.Sorts.Field(x, si, i), f.Go, depth+1, out)
+		}
+	}
+}
+
+// normForCodec is what decoding the encoding of x yields: nil Int/Dec fields come back as zero.
+func (ex *Exec) normForCodec(x T, t types.Type, depth int) T {
+	switch x.Sort {
+	case SIntV:
+		return App(SIntV, "mkIntV", Bool(false), Ite(App(SBool, "isnil", x), IntLit(0), App(SInt, "val", x)))
+	case SDecV:
+		return App(SDecV, "mkDecV", Bool(false), Ite(App(SBool, "disnil", x), IntLit(0), App(SInt, "dval", x)))
+	}
+	if depth > 2 {
+		return x
+	}
+	si := ex.Sorts.StructInfoOf(t)
+	if si == nil {
+		return x
+	}
+	args := make([]T, len(si.Fields))
+	changed := false
+	for i, f := range si.Fields {
+		fx := ex.Sorts.Field(x, si, i)
+		args[i] = ex.normForCodec(fx, f.Go, depth+1)
+		if args[i].S != fx.S {
+			changed = true
+		}
+	}
+	if !changed {
+		return x
+	}
+	return WithGo(App(si.Sort, si.Ctor, args...), t)
 }
 
 func (ex *Exec) declFun(name string, args []string, ret string) {
 	if ex.funDecls == nil {
 		ex.funDecls = map[string]string{}
+	}
+	if _, inPrelude := ex.Prelude.Sigs[name]; inPrelude {
+		return
 	}
 	if _, ok := ex.funDecls[name]; !ok {
 		ex.funDecls[name] = fmt.Sprintf("(declare-fun %s (%s) %s)", name, strings.Join(args, " "), ret)
@@ -234,7 +321,8 @@ func (fr *frame) codecMethod(st *PState, m string, args []Val, sig *types.Signat
 		x := ex.reify(st, st.LoadPtr(p), et)
 		bz := st.Fresh("bz", SBytes)
 		st.Assume(Not(Eq(bz, bnilT)))
-		st.Assume(Eq(ex.Unm(et, bz), x))
+		st.Assume(Eq(ex.Unm(et, bz), ex.normForCodec(st.Name("marshaled", x), et, 0)))
+		ex.side = nil // the non-nil facts follow from the normalisation
 		ex.Assumed["codec round trip unm(mar(x)) = x for "+shortTypeName(et)] = true
 		if strings.HasPrefix(m, "Must") {
 			return WithGo(bz, sig.Results().At(0).Type()), true
@@ -247,6 +335,7 @@ func (fr *frame) codecMethod(st *PState, m string, args []Val, sig *types.Signat
 			return nil, false
 		}
 		val := ex.Unm(et, bz)
+		st.FlushSide()
 		if strings.HasPrefix(m, "Must") {
 			st.StorePtr(p, st.Name("unm", val))
 			return T{S: "unit", Sort: SUnit}, true
